@@ -100,4 +100,19 @@ RefVerdict(tr, root, reacts) ==
 \* side-effect operators act for every subscription: with tap at the root, each stimulus shows the same events on the tap as at the sinks
 TapOK(tr, root) == root.op = "tap" =>
   \A i \in 1..Len(tr) : LET P(o) == LET s == SelectSeq(tr[i].obs, LAMBDA e : e.o = o) IN [j \in 1..Len(s) |-> <<s[j].k, s[j].v>>] IN P("tap") = P("cb")
+
+\* ---------------------------------------------------------------- C17: a finished subscription releases the user's callbacks
+\* leakSink / leakOps: a reference-counted token captured by the subscriber's three callbacks / by every closure handed to an
+\* operator is still alive after the harness dropped every handle it holds.
+AllSinksEnded(tr) == LET f == Flat(tr) IN SubbedSinks(tr) # {} /\ \A u \in SubbedSinks(tr) : EndPos(f, u) # 0
+C17ok(tr, leakSink, leakOps) == (AllFinOk(tr) /\ AllSinksEnded(tr)) => (~leakSink /\ ~leakOps)
+
+\* ---------------------------------------------------------------- all verdicts of one history
+HasReact(c) == c.react.unsub_at # 0 \/ c.react.emit_at # 0 \/ c.react.sub_at # 0
+HasPublish(c) == \E i \in 1..Len(c.conn) : c.conn[i].kind = "publish"
+V(b) == IF b THEN "ok" ELSE "bad"      \* verdicts are strings: "ok" | "bad" | "na"
+Judge(tr, root, c, leakSink, leakOps) ==
+  LET rv == RefVerdict(tr, root, HasReact(c)) IN
+  [C01 |-> V(C01ok(tr)), C05 |-> V(C05ok(tr)), C06 |-> V(HasPublish(c) \/ C06ok(tr)), C07 |-> V(C07ok(tr)),
+   REF |-> rv, TAP |-> V(rv = "na" \/ TapOK(tr, root)), C17 |-> V(C17ok(tr, leakSink, leakOps))]
 =============================================================================
